@@ -125,7 +125,11 @@ def run_case(case):
         value = impl("get", tree.get, K)
         branch = impl("branch", tree.branch, K)
     else:
-        value, branch = impl("_get", tree._get, K)
+        getter = getattr(tree, "_get", None)
+        if getter is not None:
+            value, branch = impl("_get", getter, K)
+        else:  # another internal layout: start from the reference value and sibling list
+            value, branch = cur, ref.path_and_siblings(model, K)[1]
         info.label("tracked-key-blank-at-creation")
     proof = impl("construct-proof", SparseMerkleProof, K, value, branch)
 
